@@ -382,6 +382,9 @@ class EngineSystem:
         def go():
             if ctx is None:
                 self.handler = self.wf.run(start_event=E.TYPES["Start"](uid=uid))
+            elif getattr(self, "_reuse_with_start", False):
+                # the SAME context object used for a follow-up run after its run has ended (is_running false: a start event)
+                self.handler = self.wf.run(ctx=ctx, start_event=E.TYPES["Start"](uid=uid))
             else:
                 self.handler = self.wf.run(ctx=ctx)
             if getattr(self, "snap_at_start", False):
@@ -577,6 +580,31 @@ class EngineSystem:
         finally:
             self._muted = False
             self._cur_tick = None
+
+    def reuse(self, uid="s1"):
+        """workflow.run(ctx=<the context of the run that has just ended>, start_event=...): a follow-up run on the same context.
+        Whatever the ended run left in the state (work that was still in flight when another step ended the run) is part of
+        the new run's initial state."""
+        ctx = self.handler.ctx
+        for k in list(self.rig.gates):
+            g = self.rig.gates[k]
+            if not g.done():
+                g.cancel()                 # bodies of the ended run that are still parked
+        self.loop.quiesce()
+        self.rig.gates.clear()
+        self.rig.gate_order.clear()
+        _RUNNERS.clear()
+        self.cancelled = False
+        self._reuse_with_start = True
+        try:
+            self.start(uid, ctx=ctx)
+        finally:
+            self._reuse_with_start = False
+        self.log({"e": "quiet", "live": self.live_now(), "queued": self.queued_now(),
+                  "open": [list(k) for k in self.rig.open_gates()],
+                  "done": self.outcome is not None, "stream_done": self.stream_done,
+                  "consumers2": self.consumers2, "consumers2_done": self.consumers2_done})
+        self.inspect()
 
     def resume_from(self, snap: dict):
         self.abandon_run()
